@@ -146,12 +146,19 @@ def gcd(ra1, dec1, ra2, dec2):
     # https://en.wikipedia.org/wiki/Great-circle_distance
     dlon = ra2 - ra1
     dlat = dec2 - dec1
+    slon = np.sin(np.radians(dlon) / 2) ** 2
     a = np.sin(np.radians(dlat) / 2) ** 2
     a += np.cos(np.radians(dec1)) \
         * np.cos(np.radians(dec2)) \
-        * np.sin(np.radians(dlon) / 2) ** 2
+        * slon
     sep = np.degrees(2 * np.arcsin(np.minimum(1, np.sqrt(a))))
-    return sep
+    # arcsin(sqrt(a)) loses half of the available digits as a -> 1 (nearly
+    # antipodal points), so beyond 90 degrees measure from the antipode instead:
+    # b = 1 - a, written as a sum of non-negative terms, keeps its precision
+    b = np.cos(np.radians(dlat) / 2) ** 2 * np.cos(np.radians(dlon) / 2) ** 2
+    b += np.sin(np.radians(dec1 + dec2) / 2) ** 2 * slon
+    far = 180 - np.degrees(2 * np.arcsin(np.minimum(1, np.sqrt(b))))
+    return np.where(a > 0.5, far, sep)[()]
 
 
 def bear(ra1, dec1, ra2, dec2):
